@@ -10,8 +10,7 @@
    [spec_case] = [check_case]: the specification of C02 IS the documented
    meaning, so every disagreement is a violation with a concrete replay.
 
-   [explain] classifies a disagreement by the known deviation that reproduces
-   the observed verdicts. *)
+   [explain] tells which of the two observations disagrees. *)
 From Coq Require Import List ZArith NArith Bool.
 From YV Require Import Cond.Syntax Cond.Sem Cond.RuleSet.
 Import ListNotations.
@@ -35,29 +34,27 @@ Fixpoint nat_list_eqb (a b : list nat) : bool :=
   | _, _ => false
   end.
 
-Definition agrees_with (tr : expr -> expr) (fast : bool) (c : case) (oa op : list nat) : bool :=
-  let '(all, pub) := run tr (c_data c) (c_globals c) fast (c_rules c) in
+Definition agrees_with (tr : expr -> expr) (c : case) (oa op : list nat) : bool :=
+  let '(all, pub) := run tr (c_data c) (c_globals c) (c_rules c) in
   nat_list_eqb all oa && nat_list_eqb pub op.
-Definition agrees (tr : expr -> expr) (fast : bool) (c : case) : bool :=
-  agrees_with tr fast c (c_obs_all c) (c_obs_pub c).
-Definition agrees_warm (tr : expr -> expr) (fast : bool) (c : case) : bool :=
-  agrees_with tr fast c (c_warm_all c) (c_warm_pub c).
+Definition agrees (c : case) : bool :=
+  agrees_with (fun e => e) c (c_obs_all c) (c_obs_pub c).
+Definition agrees_warm (c : case) : bool :=
+  agrees_with (fun e => e) c (c_warm_all c) (c_warm_pub c).
 
-Definition check_case (c : case) : bool := agrees (fun e => e) false c.
+(* the documented meaning predicts the observation, and also the observation
+   made with the pattern search forced up-front (regression assert for the
+   skipped lazy search repaired by commit e5009a16: both runs must agree) *)
+Definition check_case (c : case) : bool := agrees c && agrees_warm c.
 Definition spec_case (c : case) : bool := check_case c.
 
-(* 0: the documented meaning predicts the observation;
-   2: reproduced by the model of the `N of` fast path for N <= 0 (findings 6, 11);
-   5: the documented meaning predicts what the implementation reports once
-      the pattern search is forced before the first condition is evaluated
-      (the lazily emitted call to search_for_patterns was skipped);
-   7: 5 together with 2;
-   255: unexplained.
-   (1, 3, 4, 6 were the models of constant folding through f64 and of the
-   undefined-flag aliasing, both repaired in /repo.) *)
+(* 0: both observations are predicted;
+   5: only the run with the pattern search forced is predicted (the lazily
+      emitted call to search_for_patterns was skipped: regression);
+   8: only the plain run is predicted;
+   255: neither *)
 Definition explain (c : case) : N :=
   if check_case c then 0%N
-  else if agrees (fun e => e) true c then 2%N
-  else if agrees_warm (fun e => e) false c then 5%N
-  else if agrees_warm (fun e => e) true c then 7%N
+  else if agrees_warm c then 5%N
+  else if agrees c then 8%N
   else 255%N.
